@@ -221,29 +221,57 @@ fn main() {
     let k: usize = arg(&args, "--k", "6").parse().unwrap();
     let only: i64 = arg(&args, "--case", "-1").parse().unwrap();
     let explain = args.iter().any(|a| a == "--explain");
+    // development aids: --probe "<sql>" replaces the SQL text; --cfg J keeps only configurations 0 and J;
+    // --tp / --bs / --set "k=v,k=v" / --unset "k,k" / --plain-layout / --noconc modify configuration J
+    let probe = arg(&args, "--probe", "");
+    let only_cfg: i64 = arg(&args, "--cfg", "-1").parse().unwrap();
     let rt = tokio::runtime::Builder::new_multi_thread().worker_threads(4).enable_all().build().unwrap();
+    if args.iter().any(|a| a == "--witness") { witness(&rt); return; }
     let mut rng = Rng::new(seed ^ 0xC02);
     for id in 0..n {
         let stream = STREAMS[(id % STREAMS.len() as u64) as usize];
         let tabs = Gen::gen_tables(&mut rng);
         let (q, widths) = { let mut g = Gen { rng: &mut rng, tabs: tabs.clone() }; let q = g.query(stream); (q, g.tab_widths()) };
+        #[allow(unused_mut)]
         let mut cfgs = vec![Cfg { tp: 1, bs: 8192, opts: vec![], layout: plain_layout(&tabs), concurrent: false }];
         for _ in 1..k.max(2) { cfgs.push(gen_cfg(&mut rng, &tabs)); }
         let conc = 1 + rng.below(cfgs.len() as u64 - 1) as usize;
         cfgs[conc].concurrent = true;
         if only >= 0 && id as i64 != only { continue; }
-        let sql = to_sql(&q, &widths);
+        if only_cfg > 0 {
+            let mut c = cfgs[only_cfg as usize].clone();
+            let tp = arg(&args, "--tp", ""); if !tp.is_empty() { c.tp = tp.parse().unwrap(); }
+            let bs = arg(&args, "--bs", ""); if !bs.is_empty() { c.bs = bs.parse().unwrap(); }
+            for kv in arg(&args, "--set", "").split(',').filter(|x| !x.is_empty()) {
+                let (k, v) = kv.split_once('=').unwrap();
+                c.opts.retain(|(k2, _)| k2 != k);
+                c.opts.push((k.to_string(), v.to_string()));
+            }
+            for k in arg(&args, "--unset", "").split(',').filter(|x| !x.is_empty()) { c.opts.retain(|(k2, _)| k2 != k); }
+            if args.iter().any(|a| a == "--unset-all") { c.opts.clear(); }
+            if args.iter().any(|a| a == "--plain-layout") { c.layout = plain_layout(&tabs); }
+            if args.iter().any(|a| a == "--noconc") { c.concurrent = false; }
+            cfgs = vec![cfgs[0].clone(), c];
+        }
+        let sql = if probe.is_empty() { to_sql(&q, &widths) } else { probe.clone() };
         let qj = q_json(&q, &widths);
         let kind = top_kind(&q);
+        run_case(&rt, &id.to_string(), stream, kind, &tabs, &qj, &sql, &cfgs, explain);
+    }
+}
+
+/// execute one query under all its configurations and print the JSON line
+fn run_case(rt: &tokio::runtime::Runtime, id: &str, stream: &str, kind: &str, tabs: &[Tab], qj: &str, sql: &str, cfgs: &[Cfg], explain: bool) {
+    {
         let mut runs: Vec<(usize, Out, bool)> = vec![]; // (config index, result, panicked)
         for (ci, c) in cfgs.iter().enumerate() {
             if explain { eprintln!("=== config {ci}: {}", cfg_json(c)); }
             let res = catch_unwind(AssertUnwindSafe(|| -> Vec<Out> {
-                let ctx = match session(c, &tabs) { Ok(x) => x, Err(e) => return vec![Err(e)] };
+                let ctx = match session(c, tabs) { Ok(x) => x, Err(e) => return vec![Err(e)] };
                 if c.concurrent {
-                    let (a, b) = rt.block_on(async { tokio::join!(exec(&ctx, &sql, false), exec(&ctx, &sql, false)) });
+                    let (a, b) = rt.block_on(async { tokio::join!(exec(&ctx, sql, false), exec(&ctx, sql, false)) });
                     vec![a, b]
-                } else { vec![rt.block_on(exec(&ctx, &sql, explain))] }
+                } else { vec![rt.block_on(exec(&ctx, sql, explain))] }
             }));
             match res {
                 Ok(outs) => for o in outs { runs.push((ci, o, false)); },
@@ -264,7 +292,24 @@ fn main() {
             let out = match o { Ok(rows) => format!("{{\"rows\":[{}]}}", rows.join(",")), Err(e) => format!("{{\"err\":{}}}", json_str(e)) };
             format!("{{\"cfg\":{ci},\"out\":{out},\"panic\":{p}}}")
         }).collect::<Vec<_>>().join(",");
-        println!("{{\"id\":{id},\"stream\":\"{stream}\",\"kind\":\"{kind}\",\"tables\":{},\"q\":{qj},\"sql\":{},\"cfgs\":[{}],\"runs\":[{runs_json}],\"diff\":{diff},\"ok\":{ok}}}",
-            tables_json(&tabs), json_str(&sql), cfgs.iter().map(cfg_json).collect::<Vec<_>>().join(","));
+        println!("{{\"id\":{},\"stream\":\"{stream}\",\"kind\":\"{kind}\",\"tables\":{},\"q\":{qj},\"sql\":{},\"cfgs\":[{}],\"runs\":[{runs_json}],\"diff\":{diff},\"ok\":{ok}}}",
+            json_str(id), tables_json(tabs), json_str(sql), cfgs.iter().map(cfg_json).collect::<Vec<_>>().join(","));
+    }
+}
+
+// ---------------------------------------------------------------- fixed witness cases of the listed known findings
+struct Wit { id: &'static str, kind: &'static str, tabs: Vec<Tab>, sql: &'static str, qjson: &'static str, cfgs: Vec<Cfg> }
+
+fn ints(rows: &[&[Option<i64>]]) -> Vec<Vec<V>> {
+    rows.iter().map(|r| r.iter().map(|v| match v { Some(z) => V::I(*z), None => V::Null }).collect()).collect()
+}
+
+fn witnesses() -> Vec<Wit> {
+    vec![]
+}
+
+fn witness(rt: &tokio::runtime::Runtime) {
+    for w in witnesses() {
+        run_case(rt, w.id, "witness", w.kind, &w.tabs, w.qjson, w.sql, &w.cfgs, false);
     }
 }
